@@ -7,3 +7,37 @@ CLAIMED = [f'C{i:02d}' for i in range(1, 21)]
 
 _PENDING = 'check not built yet in this session (planned: DESIGN.md §5); not claimed until its proof and correspondence run exist'
 NOT_APPLICABLE = {f'C{i:02d}': _PENDING for i in range(1, 21)}
+
+
+# Implementation-side stages beyond the modelled kernels (public entry points, input representations, sizes) that each check
+# drives on every run; appended to the check's level_note by mkmanifest.py.  These stages are differential / oracle runs of the
+# real code (they find failing inputs and tie callers to the modelled kernels); they are not theorems.
+ENTRY_POINT_STAGES = {
+    'C01': 'filtered loads, subsample requests in A/B, B/A and dict orders, convert_units on/off, field-list objects shared between loads',
+    'C02': 'split halo_info files, light-cone catalogs, shared field-list objects (must come back unchanged), decoy header keys',
+    'C03': 'extra halo columns in the relations, filters that are functions of position applied to the table the unfiltered load returns '
+           '(stored centres on the box faces)',
+    'C04': 'read_asdf with inexact header ppd against the direct decoders; the catalog loader with convert_units on/off',
+    'C05': 'catalogs with small stored values and a big-endian copy of every catalog',
+    'C06': 'explicit npartition, sessions on reused arrays, caller-supplied padded / Fortran-ordered grids',
+    'C07': 'sessions on reused arrays; power_spectrum.get_field / get_field_fft / get_interlaced_field_fft on owned, strided and Fortran '
+           'position arrays, every parallel deposit intercepted at _tsc_parallel and its same-parity stripes measured',
+    'C08': 'calc_pk_from_deltak against bin_kmu for unsorted / repeated poles and unequal mu edges',
+    'C09': 'tracer key orders, unsorted particle indices, positions on the box faces, observer on a host / at the origin; AbacusHOD on '
+           'synthetic subsample files (staged columns against the files by halo id, run_hod against gen_gal_cat)',
+    'C10': 'fewer hosts than threads; AbacusHOD.run_hod on synthetic subsample files for several thread counts with an unrequested NFW_draw table',
+    'C11': 'thin grids along every axis, the subsample zipper under bounds checking, pk_to_xi / project_3d_to_poles, do_Menv_from_tree with '
+           'single / full / partial batches',
+    'C12': 'ids up to 2^56 and uint64 id columns',
+    'C13': 'Hermitian half-mesh sampling, a 272^3 mesh with > 2^24 modes in one bin, float32 vs float64 particles, the same array objects '
+           'as both fields and re-used afterwards',
+    'C14': 'interleaved readers on one compressor object',
+    'C15': 'a crowded-cell stream of 210000 records; read_asdf on pack9 files against unpack_pack9 on the same bytes (drifters outside the '
+           'outermost cells)',
+    'C16': 'empty files; pid columns stored big-endian / signed, judged against a decoding of the stored values',
+    'C17': 'stripe counts around and beyond 2^15 and 2^16',
+    'C18': 'the catalog loader on every subset of the eigenvector columns, little- and big-endian stored codes; a 2^23-row decode',
+    'C19': 'floating-point inputs bitwise, strided views, 2^16 .. 2^20-element inputs under resized numba thread pools',
+    'C20': 'payloads of 2^16 .. 2^23 bytes, many files / nthread values, columns of thousands of tiny blsc frames, file names with glob '
+           'characters and unmatched patterns through main() and unpack_to_pipe',
+}
